@@ -219,12 +219,13 @@ fn search(unit: &str, depth: usize) -> Value {
         // fixed-width char blocks: strings of length 0..=width in every combination, every skip, batches 1..3
         "charblock" => {
             let width = 3usize;
-            let alphabet = ["", "a", "bc", "def"];
+            // (multi-byte characters included: the width of a char(n) slot is counted in bytes)
+            let alphabet = ["", "a", "bc", "def", "\u{e9}", "\u{e9}x"];
             let n = depth + 3;
             let total = (alphabet.len() as u32).pow(n as u32);
             for code in 0..total {
                 let mut c = code;
-                let items: Vec<String> = (0..n).map(|_| { let s = alphabet[(c % 4) as usize].to_string(); c /= 4; s }).collect();
+                let items: Vec<String> = (0..n).map(|_| { let s = alphabet[(c % 6) as usize].to_string(); c /= 6; s }).collect();
                 for skip in 0..=n {
                     for batch in 1..=3 {
                         tried += 1;
